@@ -84,7 +84,8 @@ Running == [kind |-> "run"]
 
 (* Only LR(1) grammars are evaluated (decided here, by the spec, for the
    whole canonical collection); the verdict is printed for the orchestrator. *)
-LR1Of == [k \in 1..NC |-> Evaluable(k) /\ IsLR1(Cases[k].G, PreOf[k], Cases[k].sp)]
+(* (cases with a fixed long input repeat a grammar already decided in the same batch) *)
+LR1Of == [k \in 1..NC |-> Evaluable(k) /\ ("fixed" \in DOMAIN Raw[k] \/ IsLR1(Cases[k].G, PreOf[k], Cases[k].sp))]
 ASSUME \A k \in 1..NC :
          PrintT("@@LR1 " \o ToJson([id |-> Cases[k].id, lr1 |-> LR1Of[k], evaluable |-> Evaluable(k),
                                     reduced |-> Evaluable(k) /\ Reduced(Cases[k].G, Lhs(Cases[k].G, Cases[k].sp))]))
@@ -98,17 +99,25 @@ Init == /\ c \in {k \in 1..NC : LR1Of[k]}
         /\ res = Running
 
 (* ---- the token stream: any terminal, end of input, or one injected error ---- *)
+(* a case may fix its input (`fixed`: long inputs, one behaviour) *)
+Fixed == "fixed" \in DOMAIN Cases[c]
+MayPull(t) == Fixed => (pulled < Len(Cases[c].fixed) /\ Cases[c].fixed[pulled + 1] = t)
+MayEnd == Fixed => (pulled = Len(Cases[c].fixed) /\ ~Cases[c].inject)
+MayInject == Fixed => pulled = Len(Cases[c].fixed)
+
 Pull ==
   /\ res = Running /\ la = NoLa
   /\ \/ /\ pulled < Cases[c].n
         /\ \E t \in {x \in TSet(GC) : x # "error"} :   \* `!` never occurs in an input
+             /\ MayPull(t)
              /\ la' = [t |-> t, k |-> pulled + 1]
              /\ inp' = Append(inp, t)
         /\ pulled' = pulled + 1
         /\ UNCHANGED res
-     \/ /\ la' = EofLa
+     \/ /\ MayEnd
+        /\ la' = EofLa
         /\ UNCHANGED <<inp, pulled, res>>
-     \/ /\ Cases[c].inject /\ pulled < Cases[c].n
+     \/ /\ Cases[c].inject /\ pulled < Cases[c].n /\ MayInject
         /\ res' = [kind |-> "inj", at |-> pulled + 1]
         /\ UNCHANGED <<la, inp, pulled>>
   /\ UNCHANGED <<c, stk, evs>>
